@@ -3,6 +3,8 @@
    One record = one pure-function observation; TLC computes the expected result from Markup.tla and
    prints one verdict per record naming the failing clause.  Styles travel as one int: Code(<<fg,bg,bold,link,other>>).
 
+   Every record: base (id of the base style handed over as style=, 0 = none), emoji (1 = called with
+               emoji=True), emo (emoji names over the input's characters; [] when emoji = 0).
    kind "doc": toks (token document over the fixed tag vocabulary; text tokens with e = 1 were
                written through the real escape()), cp (the markup string that was rendered),
                observation plain / sty / err.       Expected = Run(toks)   [property part]
@@ -10,7 +12,7 @@
                c = tag text, key = canonical name, sty = style), observation plain / sty / err of
                render(cp); esc = escape(cp), observation eplain / esty / eerr of render(esc).
                Expected = Run(Lex(cp)) [property part on documented inputs, drift on Odd ones];
-               EscapeOK(cp, observation)  [property part, every string].
+               EscapeOK(cp, observation, base)  [property part, every string].
    Verdicts:  "ok" | "ok drift:<what>" | "skip:<why>" | "<failing clause> ..." | "drift:<clause> ..."  *)
 EXTENDS Markup, Json, IOUtils
 
@@ -21,32 +23,45 @@ vars == <<tid>>
 
 \* ---- comparing an observation with the machine's result -----------------------------------
 \* at the first character whose style differs say which field and how it is wrong:
-\*   missing     the expected value is set by an open tag, nothing was observed
-\*   leak        the observed value is not contributed by any tag open at this character
+\*   missing     the expected value is set by an open tag, nothing was observed  (base-missing: by the base style)
+\*   leak        the observed value is not contributed by any tag open at this character (nor by the base style)
 \*   precedence  the observed value comes from an open tag opened EARLIER than the one that
-\*               must win (same-start: both opened at the same text offset)
-StyleDiff(e, gotc) ==
+\*               must win (same-start: both opened at the same text offset; base-wins: it comes from the base style)
+\* an observed style code of -1 means "not observable at this character" (line ends of printed output)
+OpenB(e, base) == LET o == [x \in 1..Len(e.open) |-> [seq |-> e.open[x].seq, sty |-> e.open[x].sty, start |-> e.open[x].start]]
+                  IN IF base = NullSty THEN o ELSE << [seq |-> 0, sty |-> base, start |-> 0] >> \o o
+StyleDiff(e, base, gotc) ==
     LET got == Decode(gotc)
-        f == Min({g \in Fields : e.sty[g] # got[g]})
-        w == LastSetter(e.open, f)
-        S == {i \in 1..Len(e.open) : e.open[i].sty[f] = got[f]}
-    IN IF got[f] \notin 0..2 THEN "style-differs:foreign field=" \o FieldName[f]
-       ELSE IF got[f] = 0 THEN "style-differs:missing field=" \o FieldName[f]
+        exp == Combine(base, e.sty)
+        open == OpenB(e, base)
+        f == Min({g \in Fields : exp[g] # got[g]})
+        w == LastSetter(open, f)
+        S == {i \in 1..Len(open) : open[i].sty[f] = got[f]}
+    IN IF got[f] = 9 THEN "style-differs:foreign field=" \o FieldName[f]
+       ELSE IF got[f] = 0 THEN (IF w # 0 /\ open[w].seq = 0 THEN "style-differs:base-missing field=" ELSE "style-differs:missing field=") \o FieldName[f]
        ELSE IF S = {} THEN "style-differs:leak field=" \o FieldName[f]
        ELSE "style-differs:precedence "
-            \o (IF w # 0 /\ e.open[Max(S)].start = e.open[w].start THEN "same-start" ELSE "other-start")
+            \o (IF open[Max(S)].seq = 0 THEN "base-wins"
+                ELSE IF w # 0 /\ open[Max(S)].start = open[w].start THEN "same-start" ELSE "other-start")
             \o " field=" \o FieldName[f]
 
-Compare(m, err, plain, sty) ==
+Compare(m, r, err, plain, sty) ==
+    LET base == BaseSty(r.base) IN
     IF m.err # err THEN "error-differs expected=" \o m.err \o " got=" \o err
     ELSE IF m.err # "none" THEN "ok"
+    ELSE IF r.emoji = 1 /\ HasEmoji(Plain(m), r.emo) THEN "skip:emoji-code-in-text"
     ELSE IF Plain(m) # plain THEN "plain-differs"
     ELSE IF Len(sty) # Len(m.out) THEN "style-length-differs"
-    ELSE LET bad == {p \in 1..Len(m.out) : Code(m.out[p].sty) # sty[p]}
-         IN IF bad = {} THEN "ok" ELSE StyleDiff(m.out[Min(bad)], sty[Min(bad)])
+    ELSE LET bad == {p \in 1..Len(m.out) : sty[p] # 0 - 1 /\ Code(Combine(base, m.out[p].sty)) # sty[p]}
+         IN IF bad = {} THEN "ok" ELSE StyleDiff(m.out[Min(bad)], base, sty[Min(bad)])
 
 \* ---- kind "doc" ---------------------------------------------------------------------------
 EscLeavesOK(toks) == \A i \in 1..Len(toks) : (toks[i].k = "text" /\ toks[i].e = 1) => SideOK(toks[i].s)
+\* text written into the markup as it is (e = 0) must be complete markup that is nothing but text: no '[' in it,
+\* and it does not end in a backslash (which would escape whatever follows)
+RawLeavesOK(toks) == \A i \in 1..Len(toks) : (toks[i].k = "text" /\ toks[i].e = 0) =>
+                        /\ \A x \in 1..Len(toks[i].s) : toks[i].s[x] # LB
+                        /\ (toks[i].s = <<>> \/ toks[i].s[Len(toks[i].s)] # BS)
 \* what the spec's lexer makes of the string that was actually rendered (drift information only)
 RECURSIVE FlatFrom(_, _)
 FlatFrom(toks, i) ==
@@ -55,7 +70,8 @@ FlatFrom(toks, i) ==
 Shape(items) == [x \in 1..Len(items) |-> IF items[x].k = "chr" THEN items[x].c ELSE 0 - 1]
 DocVerdict(r) ==
     IF ~EscLeavesOK(r.toks) THEN "skip:side-condition"
-    ELSE LET v == Compare(Run(ResolveAll(r.toks)), r.err, r.plain, r.sty)
+    ELSE IF ~RawLeavesOK(r.toks) THEN "skip:raw-text-is-not-plain-text"
+    ELSE LET v == Compare(Run(ResolveAll(r.toks)), r, r.err, r.plain, r.sty)
          IN IF v # "ok" THEN v
             ELSE IF Shape(Lex(r.cp)) # Shape(FlatFrom(r.toks, 1)) THEN "ok drift:lexer-differs" ELSE "ok"
 
@@ -72,8 +88,8 @@ RawVerdict(r) ==
     IN IF \E x \in 1..Len(items) : items[x].k = "tag" /\ Lookup(r.tags, items[x].t) = 0
        THEN "machinery:tag-table-incomplete"
        ELSE LET toks == [x \in 1..Len(items) |-> ItemTok(items[x], r.tags)]
-                v == Compare(Run(toks), r.err, r.plain, r.sty)
-            IN IF v = "ok" THEN "ok"
+                v == Compare(Run(toks), r, r.err, r.plain, r.sty)
+            IN IF v = "ok" \/ v = "skip:emoji-code-in-text" THEN v
                ELSE IF Odd(r.cp) THEN "drift:" \o v \o " input=odd" ELSE v \o " input=documented"
 
 EscShape(s) == LET j == NextTag(s, 1)
@@ -81,7 +97,8 @@ EscShape(s) == LET j == NextTag(s, 1)
                   THEN "backslash-before-tag" ELSE "tag"
 EscVerdict(r) ==
     LET o == [err |-> r.eerr, plain |-> r.eplain, sty |-> r.esty]
-    IN IF EscapeOK(r.cp, o)
+    IN IF r.eerr = "none" /\ r.emoji = 1 /\ HasEmoji(r.cp, r.emo) THEN "skip:emoji-code-in-text"
+       ELSE IF EscapeOK(r.cp, o, BaseSty(r.base))
        THEN (IF r.esc # Escape(r.cp) THEN "ok drift:escape-output-differs" ELSE "ok")
        ELSE (IF r.eerr # "none" THEN "escape:error got=" \o r.eerr
              ELSE IF r.eplain # r.cp THEN "escape:plain-differs"
